@@ -28,7 +28,7 @@ ASSUMPTIONS = [
     "a Stadler-closed-form / ODE disagreement is an oracle error (harness error -> inconclusive), never a violation",
     "fast-process cases whose survival probability is itself below 1e-304 are not judged (the quantity conditioned on is not a double)",
 ]
-BUDGET = {"quick": 80, "thorough": 900}
+BUDGET = {"quick": 80, "thorough": 1800}
 ROUNDS = {"thorough": 10}
 FLOORS = {"after_moving_the_epoch_boundaries": {"quick": 40, "thorough": 400}, "ode_comparisons": {"quick": 400, "thorough": 4000}, "closed_form_comparisons": {"quick": 80, "thorough": 800},
           "refinement_pairs": {"quick": 300, "thorough": 3000}, "json_option_checks": {"quick": 150, "thorough": 1500}, "oracle_cross_checks": 50}
